@@ -48,7 +48,7 @@ pub(crate) fn parse_directive(jsx_attr: &JSXAttr, is_component: bool) -> Directi
                 .trim_start_matches('-')
                 .split('_');
             (
-                splitted.next().unwrap_or(&*ident.sym).to_ascii_lowercase(),
+                lowercase_first_letter(splitted.next().unwrap_or(&*ident.sym)),
                 splitted.next(),
                 splitted,
             )
@@ -56,10 +56,7 @@ pub(crate) fn parse_directive(jsx_attr: &JSXAttr, is_component: bool) -> Directi
         JSXAttrName::JSXNamespacedName(JSXNamespacedName { ns, name, .. }) => {
             let mut splitted = name.sym.split('_');
             (
-                ns.sym
-                    .trim_start_matches('v')
-                    .trim_start_matches('-')
-                    .to_ascii_lowercase(),
+                lowercase_first_letter(ns.sym.trim_start_matches('v').trim_start_matches('-')),
                 Some(splitted.next().unwrap_or(&*name.sym)),
                 splitted,
             )
@@ -141,6 +138,20 @@ pub(crate) fn parse_directive(jsx_attr: &JSXAttr, is_component: bool) -> Directi
         modifiers: modifiers.and_then(|modifiers| transform_modifiers(modifiers, false)),
         value,
     })
+}
+
+/// `vMyDir` names the directive `myDir`: only the first letter is lower-cased.
+fn lowercase_first_letter(name: &str) -> String {
+    let mut chars = name.chars();
+    match chars.next() {
+        Some(first) => {
+            let mut lowered = String::with_capacity(name.len());
+            lowered.push(first.to_ascii_lowercase());
+            lowered.push_str(chars.as_str());
+            lowered
+        }
+        None => String::new(),
+    }
 }
 
 fn parse_modifiers(exprs: &[Option<ExprOrSpread>]) -> BTreeSet<Atom> {
